@@ -921,6 +921,19 @@ class WorkflowConductor(object):
         # task state machine and update the task status.
         old_task_status = task_state_entry.get("status", statuses.UNSET)
         machines.TaskStateMachine.process_event(self.workflow_state, task_state_entry, event)
+
+        # A task that was already offered may report its start only after the workflow is requested
+        # to pause or cancel. The request is pushed to the active tasks when it is made; pass it on
+        # to a task that becomes active afterward, otherwise a with items task keeps running with
+        # no item in flight and none on offer.
+        if (
+            old_task_status not in statuses.ACTIVE_STATUSES
+            and task_state_entry.get("status") in statuses.ACTIVE_STATUSES
+            and self.get_workflow_status() in [statuses.PAUSING, statuses.CANCELING]
+        ):
+            wf_ex_event = events.WorkflowExecutionEvent(self.get_workflow_status())
+            machines.TaskStateMachine.process_event(self.workflow_state, task_state_entry, wf_ex_event)
+
         new_task_status = task_state_entry.get("status", statuses.UNSET)
 
         # If retrying, staged the task to be returned in get_next_tasks. A report that leaves a
